@@ -14,6 +14,7 @@ import contextlib
 import io
 import json
 import random
+import sys
 import threading
 import warnings
 from typing import Any, Dict, List, Optional
@@ -102,7 +103,8 @@ class C20(PropCheck):
         dmax = 3 if tier == "quick" else 4
         for _ in range(n):
             out.append({"k": "referents", "kind": rng.choice(["gen", "coro", "agen", "agen_in_coro"]), "pseed": rng.randrange(1 << 30),
-                        "depth": rng.randint(1, dmax), "choices": [rng.randrange(6) for _ in range(rng.randint(0, 14))]})
+                        "depth": rng.randint(1, dmax), "choices": [rng.randrange(6) for _ in range(rng.randint(0, 14))],
+                        "traced": rng.random() < 0.25})
         for ci, (kind, _src) in enumerate(progs.CORPUS):
             if kind != "sync":
                 for ch in ([], [1], [0, 1], [1, 0, 1], [0, 0, 1, 1], [1, 1, 0, 1, 0]):
@@ -119,6 +121,8 @@ class C20(PropCheck):
             out.append({"k": "modes", "ops": ops, "threads": rng.randint(1, 3), "tseed": rng.randrange(1 << 30)})
         for v in (False, True, None):
             out.append({"k": "race", "value": v})
+            out.append({"k": "race", "value": v, "shape": "set_before_lock"})
+        out.append({"k": "race", "value": None, "shape": "query_during_detection"})
         return out
 
     def run_real(self, case):
@@ -130,8 +134,22 @@ class C20(PropCheck):
                 gk = "agen" if case["kind"] == "agen_in_coro" else case["kind"]
                 src = progs.CORPUS[case["corpus"]][1] if "corpus" in case else progs.gen_program(random.Random(case["pseed"]), gk, case["depth"])
                 recs: List[dict] = []
-                progs.run_program(src, case["kind"], case["choices"],
-                                  lambda w, label: observe_referents(w, self._probs, recs) if label == "suspended" else None)
+                traced = bool(case.get("traced"))
+                if traced:
+                    # the program runs under a debugger / coverage tool: its frames carry a trace function (f_trace)
+                    def _local(frame, event, arg):
+                        return _local
+
+                    def _tracer(frame, event, arg):
+                        return _local if frame.f_code.co_filename == "<prog>" else None
+
+                    sys.settrace(_tracer)
+                try:
+                    progs.run_program(src, case["kind"], case["choices"],
+                                      lambda w, label: observe_referents(w, self._probs, recs) if label == "suspended" else None)
+                finally:
+                    if traced:
+                        sys.settrace(None)
                 case["_obs"] = len(recs)
                 return json.dumps([[r["lasti"], r["got"]] for r in recs])
             finally:
@@ -147,6 +165,10 @@ class C20(PropCheck):
         has returned, every later query must see v."""
         from stackscope import _lowlevel as L
 
+        if case.get("shape") == "set_before_lock":
+            return self.run_race_before_lock(case)
+        if case.get("shape") == "query_during_detection":
+            return self.run_query_during_detection()
         L.set_trickery_enabled(None)
         in_detect, go = threading.Event(), threading.Event()
         orig = L._contexts_active_by_trickery
@@ -184,6 +206,101 @@ class C20(PropCheck):
             self._probs.append(f"set_trickery_enabled({case['value']}) issued during another thread's auto-detection was lost: "
                                f"a later query sees trickery={'on' if seen else 'off'}")
         return "T" if seen else "F"
+
+    def run_race_before_lock(self, case):
+        """A thread has seen 'not decided yet' on the fast path of _check_trickery_available and is about to take the lock; before it
+        does, set_trickery_enabled(v) runs to completion on another thread.  The first thread must honour that decision (it looks
+        again under the lock), and so must everybody afterwards."""
+        import linecache
+
+        from stackscope import _lowlevel as L
+
+        L.set_trickery_enabled(None)
+        code = L._check_trickery_available.__code__
+        at_lock, setter_done = threading.Event(), threading.Event()
+        fired = [False]
+        seen_b: List[Any] = []
+
+        def local(frame, event, arg):
+            if event == "line" and not fired[0] and "with _trickery_lock" in linecache.getline(code.co_filename, frame.f_lineno):
+                fired[0] = True
+                at_lock.set()
+                setter_done.wait(3)
+            return local
+
+        def tracer(frame, event, arg):
+            return local if frame.f_code is code else None
+
+        def body():
+            sys.settrace(tracer)
+            try:
+                with warnings.catch_warnings():
+                    warnings.simplefilter("ignore")
+                    seen_b.append(self.probe_mode())
+            finally:
+                sys.settrace(None)
+
+        b = threading.Thread(target=body, name="late-locker")
+        b.start()
+        if not at_lock.wait(3):
+            setter_done.set()
+            b.join(5)
+            L.set_trickery_enabled(None)
+            return "no-window"
+        L.set_trickery_enabled(case["value"])
+        setter_done.set()
+        b.join(5)
+        with warnings.catch_warnings():
+            warnings.simplefilter("ignore")
+            seen = self.probe_mode()
+        want = True if case["value"] is None else case["value"]
+        L.set_trickery_enabled(None)
+        if seen != want or seen_b != [want]:
+            self._probs.append(f"set_trickery_enabled({case['value']}) completed while another thread stood between its fast-path test and the "
+                               f"lock: that thread then saw trickery={seen_b}, a later query {'on' if seen else 'off'}; both must be "
+                               f"{'on' if want else 'off'}")
+        return "T" if seen else "F"
+
+    def run_query_during_detection(self):
+        """While one thread is inside the one-off self-test, another thread asks: it gets the final answer (it waits), never a
+        provisional one."""
+        from stackscope import _lowlevel as L
+
+        L.set_trickery_enabled(None)
+        in_detect, go = threading.Event(), threading.Event()
+        orig = L._contexts_active_by_trickery
+        first = [True]
+
+        def slow(frame):
+            if first[0] and threading.current_thread().name == "detector":
+                first[0] = False
+                in_detect.set()
+                go.wait(3)
+            return orig(frame)
+
+        L._contexts_active_by_trickery = slow
+        seen_c: List[Any] = []
+        try:
+            a = threading.Thread(target=lambda: self.probe_mode(), name="detector")
+            a.start()
+            if not in_detect.wait(3):
+                go.set()
+                a.join(5)
+                return "no-detection-window"
+            c = threading.Thread(target=lambda: seen_c.append(self.probe_mode()), name="asker")
+            c.start()
+            c.join(0.3)
+            early = list(seen_c)
+            go.set()
+            a.join(5)
+            c.join(5)
+        finally:
+            L._contexts_active_by_trickery = orig
+        L.set_trickery_enabled(None)
+        if seen_c != [True]:
+            self._probs.append(f"a query made while another thread was inside the self-test saw trickery={seen_c} (before the test ended: "
+                               f"{early}); the self-test passes on this interpreter, so every query must see it on")
+        return "T" if seen_c == [True] else "F"
 
     def run_faults(self, case):
         from stackscope import _lowlevel as L
